@@ -384,6 +384,23 @@ func (c *Ctx) localUse(u ssa.Instruction, v ssa.Value) bool {
 	return c.P.InTarget(cal) || callsBackOnly[core.CalleeName(ci.Common())]
 }
 
+// strayLoaderCaller: an in-target caller of the value-set loader other than BuildFunc's generated function, FromResult
+// and the loader itself.
+func (c *Ctx) strayLoaderCaller(loader *ssa.Function) string {
+	for _, s := range c.P.Callers(loader) {
+		g := s.Parent()
+		o := core.Outer(g)
+		switch {
+		case o.Name() == "BuildFunc" && g != o:
+		case o.Name() == "FromResult" && o.Signature.Recv() != nil:
+		case o == loader:
+		default:
+			return core.FuncName(g) + " at " + c.P.InstrPos(s)
+		}
+	}
+	return ""
+}
+
 // callsBackOnly: standard-library functions that call a function argument synchronously and keep no reference to it.
 var callsBackOnly = map[string]bool{
 	"sort.Slice": true, "sort.SliceStable": true, "sort.SliceIsSorted": true, "sort.Search": true,
@@ -673,6 +690,14 @@ func runShared(c *Ctx) {
 			case own.shared[owner]:
 				// listed exception (one symbol): ValueSet.FromSignature loads values into the set by API design
 				if fname == "ValueSet.FromSignature" && (owner == "Value" || owner == "ValueSet") {
+					// … which holds only for the sets a user hands to BuildFunc or loads through the exported API: inside the
+					// library the loader is reached from BuildFunc's generated function and from FromResult, never with a
+					// Func's own input/output set (those are shared by every call that uses the Func)
+					if stray := c.strayLoaderCaller(f); stray != "" {
+						c.R.Add("SHARED-W", key, fname, pos, false, "writes to shared owners only at construction",
+							"FromSignature (which stores into the set's values) is also called by "+stray+": a value set of the library's own Funcs would be written by every call")
+						continue
+					}
 					c.R.Add("SHARED-W", key, fname, pos, true, "writes to shared owners only at construction",
 						"listed exception: FromSignature fills the caller's own ValueSet (BuildFunc shares its sets with the callback by API design; excluded by the property)")
 					continue
